@@ -31,7 +31,8 @@ fn name_chars() -> &'static [char] {
 const COLLIDING_NAMES: [&str; 12] = [
     "costarring", "liquid", "declinate", "macallums", "altarage", "zinke", "Aa", "BB", "plumless", "buckeroo", "AaAa", "BBBB",
 ];
-const BASES: &[u8] = b"ACGTNRYKMSWBDHVacgtn";
+/// nucleotide and amino-acid codes in both cases, gap, stop and unknown symbols (as in C11)
+const BASES: &[u8] = b"ACGTNRYKMSWBDHVacgtn-*.UXEFILPQZefilpqzxu";
 
 struct RecModel {
     name: String,
@@ -97,6 +98,21 @@ fn gen_file(w: &World, scale: Scale, max_recs: u64, max_len: u64) -> FileModel {
             // names that are prefixes / extensions of an earlier name, and numeric-looking names
             1 if i > 0 => format!("{}{}", plans[w.draw(i as u64) as usize].name, string_from(w, name_chars(), 1, 2)),
             2 => format!("{}", w.draw(30)),
+            // names as assemblies and allele databases write them; several look like region syntax
+            5 if w.chance(1, 2) => (*w.pick(&[
+                "chr1", "chrM", "MT", "chrUn_gl000220", "chr1_KI270706v1_random", "HLA-A*01:01:01:01", "NC_000001.11", "gi|568815597|ref|NC_000001.11|", "chr1:100-200",
+                "chr1:100", "scaffold_1|size123", "lambda", "phiX174", "1", "X", "*", "=", "chr1-2", "chr1:1-100:+",
+            ]))
+            .to_string(),
+            // an earlier name in the other letter case, or in another Unicode normal form
+            4 if i > 0 => {
+                let base = &plans[w.draw(i as u64) as usize].name;
+                if w.chance(1, 4) {
+                    base.replace('é', "e\u{301}").replace('à', "a\u{300}").replace('Å', "A\u{30a}")
+                } else {
+                    base.chars().map(|c| if c.is_ascii_lowercase() { c.to_ascii_uppercase() } else { c.to_ascii_lowercase() }).collect()
+                }
+            }
             3 => string_from(w, name_chars(), 1, 40),
             _ => string_from(w, name_chars(), 1, 6),
         };
